@@ -142,6 +142,13 @@ impl Drop for Worker {
 /// after a few of them the whole check stops with exit 2 instead of waiting for every case)
 static WATCHDOGS: AtomicUsize = AtomicUsize::new(0);
 
+fn watchdog_limit(tier: Tier) -> usize {
+    match tier {
+        Tier::Quick => 3,
+        Tier::Thorough => 40,
+    }
+}
+
 /// Evaluate through a worker; process death is turned into a verdict.
 fn eval_via(worker: &mut Worker, case: &Case, tier: Tier) -> Verdict {
     match worker.eval(case, tier) {
@@ -424,7 +431,7 @@ pub fn run_property(root: &Path, prop: &str, tier: Tier, seed: u64) -> i32 {
             let st_cell = std::cell::RefCell::new(&mut st);
             let worker_cell = std::cell::RefCell::new(&mut worker);
             let result = runner.run(&strategy, |draws| {
-                if WATCHDOGS.load(Ordering::SeqCst) >= 3 {
+                if WATCHDOGS.load(Ordering::SeqCst) >= watchdog_limit(tier) {
                     stop.store(true, Ordering::SeqCst);
                 }
                 if counting.get() && stop.load(Ordering::SeqCst) {
@@ -500,7 +507,7 @@ pub fn run_property(root: &Path, prop: &str, tier: Tier, seed: u64) -> i32 {
         replay_paths.push(p.display().to_string());
     }
     let wall = t0.elapsed().as_secs_f64();
-    if WATCHDOGS.load(Ordering::SeqCst) >= 3 {
+    if WATCHDOGS.load(Ordering::SeqCst) >= watchdog_limit(tier) {
         stats.harness_problems.push(format!("the watchdog expired {} times (a model run did not finish within the per-case limit): stopped early, inconclusive", WATCHDOGS.load(Ordering::SeqCst)));
     }
     let inconclusive = !stats.harness_problems.is_empty();
